@@ -75,6 +75,13 @@ def fill_markdown(
     # Extract frontmatter before any processing
     frontmatter, content = split_frontmatter(markdown_text)
 
+    # Unclosed frontmatter (an opening `---` that is never closed): the whole text is
+    # frontmatter and nothing should change, apart from ensuring a final newline.
+    if frontmatter and not content:
+        delimiter_lines = sum(1 for line in frontmatter.split("\n") if line.strip() == "---")
+        if delimiter_lines < 2:
+            return frontmatter if frontmatter.endswith("\n") else frontmatter + "\n"
+
     # Only format the content part if there's frontmatter
     if frontmatter:
         markdown_text = content
